@@ -101,6 +101,40 @@ func runC08(p *P, r *R) {
 			})
 			r.ob("R08.1", fn+": a result that aliases shared memory pins the front slice first", p.ipos(ret), pinned, true,
 				"without the pinned mark the next readNextSlice recycles the slice while the caller still holds the bytes")
+			// the pinned mark describes the FRONT slice: the aliased bytes must be the front slice's
+			isFrontOnly := true
+			var srcs []ssa.Value
+			var collect func(v ssa.Value, d int)
+			collect = func(v ssa.Value, d int) {
+				if d < 0 || v == nil {
+					return
+				}
+				switch x := v.(type) {
+				case *ssa.Extract:
+					collect(x.Tuple, d-1)
+				case *ssa.Phi:
+					for _, e := range x.Edges {
+						if e != v {
+							collect(e, d-1)
+						}
+					}
+				case *ssa.Slice:
+					collect(x.X, d-1)
+				case *ssa.Call:
+					if isReadCall(x) {
+						srcs = append(srcs, x.Call.Args[0])
+					}
+				}
+			}
+			collect(v, 5)
+			for _, recv := range srcs {
+				c, okc := recv.(*ssa.Call)
+				if !okc || p.calleeName(&c.Call) != "(*sliceList).front" || !isLoadOf(c.Call.Args[0], "linkedBuffer.sliceList") {
+					isFrontOnly = false
+				}
+			}
+			r.ob("R08.1", fn+": the aliased bytes belong to the front slice (the one the pinned mark protects)", p.ipos(ret), isFrontOnly && len(srcs) > 0, true,
+				"a zero-copy view of any other slice is not covered by currentPinned: that slice is recycled when a non-pinning read consumes it")
 		}
 	}
 	r.count("R08.1", "zero-copy (aliasing) returns", nAlias, 2)
